@@ -602,11 +602,15 @@ func main() {
 	tab := crc64.MakeTable(crc64.ECMA)
 	for i, n := range pl.HashLens {
 		var b []byte
-		switch i % 3 {
+		kind := i % 3
+		if n >= 5552 {
+			kind = i % 2 // every other long input is the worst case for Adler-32's deferred modulo
+		}
+		switch kind {
 		case 0:
-			b = randomBytes(rng, n)
+			b = bytes.Repeat([]byte{0xFF}, n)
 		case 1:
-			b = bytes.Repeat([]byte{0xFF}, n) // the worst case for Adler-32's deferred modulo
+			b = randomBytes(rng, n)
 		default:
 			b = textPayload(rng, n)
 		}
